@@ -1624,4 +1624,103 @@ theorem eq_list (a b : Rep) (ha : a.wf) (hb : b.wf) (xs ys : List Val) (hl : xs.
   exact eqScan_list a b ha hb xs.length hna (by rw [hnb, hl]) xs ys 0 fuel hl (by omega)
     (fun k hk => by simpa using hxa k hk) (fun k hk => by simpa using hyb k hk) hf
 
+
+/-! ## concatenation trees -/
+theorem append_congr_left {x x' : Sem} (y : Sem) (h : SemEq x x') : SemEq (x.append y) (x'.append y) := by
+  cases hx : x.len with
+  | none =>
+    have hx' : x'.len = none := by rw [← h.1, hx]
+    refine ⟨by rw [append_len_none hx, append_len_none hx'], fun i hi _ => ?_⟩
+    rw [append_el_none hx, append_el_none hx']
+    exact h.2 i hi (by simp [Sem.valid, optValid, hx])
+  | some n =>
+    have hx' : x'.len = some n := by rw [← h.1, hx]
+    refine ⟨by rw [append_len_some hx, append_len_some hx'], fun i hi _ => ?_⟩
+    by_cases hlt : i < n
+    · rw [append_el_lt hx i hlt, append_el_lt hx' i hlt]
+      exact h.2 i hi (by simp [Sem.valid, optValid, hx, hlt])
+    · rw [append_el_ge hx i (by omega), append_el_ge hx' i (by omega)]
+
+theorem append_empty_right (x y : Sem) (hy : y.len = some 0) : SemEq (x.append y) x := by
+  cases hx : x.len with
+  | none => exact ⟨by rw [append_len_none hx, hx], fun i _ _ => append_el_none hx i⟩
+  | some n =>
+    refine ⟨by rw [append_len_some hx, hy, hx]; rfl, fun i _ hv => ?_⟩
+    have : i < n := by simpa [Sem.valid, optValid, append_len_some hx, hy] using hv
+    exact append_el_lt hx i this
+
+theorem append_empty_left (x y : Sem) (hx : x.len = some 0) : SemEq (x.append y) y := by
+  refine ⟨by rw [append_len_some hx]; cases y.len <;> simp [Option.map], fun i _ _ => ?_⟩
+  rw [append_el_ge hx i (by omega)]; rfl
+
+theorem mkChain_den (a b : Rep) (ha : a.wf) (hb : b.wf) (r : Rep) (h : a.mkChain b = .new r) :
+    SemEq (den r) ((den a).append (den b)) := by
+  rcases mkChain_new a b r h with ⟨rfl, ea, eb⟩ | ⟨n, rfl⟩
+  · have h1 := isEmpty_den a ha ea
+    have h2 := isEmpty_den b hb eb
+    refine ⟨?_, fun i _ hv => ?_⟩
+    · rw [append_len_some h1, h2]; rfl
+    · simp [den, Sem.valid, optValid, Sem.nil] at hv
+  · exact chainOf_den a b n
+
+/-- a concatenation tree: `+` applied in any parenthesisation -/
+inductive CTree where
+  | leaf (r : Rep)
+  | node (l r : CTree)
+
+def CTree.leaves : CTree → List Rep
+  | .leaf r => [r]
+  | .node l r => l.leaves ++ r.leaves
+
+/-- evaluate every `+` of the tree with `XSequence::chain`; `none` if some `+` is an error value or a panic -/
+def CTree.eval : CTree → Option Rep
+  | .leaf r => some r
+  | .node l r =>
+    match l.eval, r.eval with
+    | some a, some b =>
+      (match a.mkChain b with
+       | .new c => some c
+       | .left => some a
+       | .right => some b
+       | .err _ => none
+       | .panic _ => none)
+    | _, _ => none
+
+theorem ctree_den : ∀ (t : CTree), (∀ r ∈ t.leaves, r.wf) → ∀ r, t.eval = some r →
+    r.wf ∧ SemEq (den r) (Sem.concat (denList t.leaves))
+  | .leaf r, hw, r', h => by
+      simp only [CTree.eval, Option.some.injEq] at h
+      subst h
+      refine ⟨hw r (by simp [CTree.leaves]), ?_⟩
+      simp only [CTree.leaves, denList, Sem.concat]
+      exact (append_nil _).symm
+  | .node l r, hw, c, h => by
+      simp only [CTree.eval] at h
+      cases hl : l.eval with
+      | none => rw [hl] at h; simp at h
+      | some a =>
+        cases hr : r.eval with
+        | none => rw [hl, hr] at h; simp at h
+        | some b =>
+          rw [hl, hr] at h
+          simp only [] at h
+          obtain ⟨ha, hda⟩ := ctree_den l (fun x hx => hw x (by simp [CTree.leaves, hx])) a hl
+          obtain ⟨hb, hdb⟩ := ctree_den r (fun x hx => hw x (by simp [CTree.leaves, hx])) b hr
+          have hcat : SemEq ((den a).append (den b)) (Sem.concat (denList (CTree.node l r).leaves)) := by
+            simp only [CTree.leaves, denList_append]
+            exact ((append_congr_left _ hda).trans (append_congr_right _ hdb)).trans (concat_append _ _).symm
+          have hwf := mkChain_wf a b ha hb
+          cases hm : a.mkChain b with
+          | new c' =>
+            rw [hm] at h hwf; simp only [Option.some.injEq] at h; subst h
+            exact ⟨hwf, (mkChain_den a b ha hb c' hm).trans hcat⟩
+          | left =>
+            rw [hm] at h hwf; simp only [Option.some.injEq] at h; subst h
+            exact ⟨ha, (append_empty_right _ _ hwf).symm.trans hcat⟩
+          | right =>
+            rw [hm] at h hwf; simp only [Option.some.injEq] at h; subst h
+            exact ⟨hb, (append_empty_left _ _ hwf).symm.trans hcat⟩
+          | err m => rw [hm] at h; simp at h
+          | panic m => rw [hm] at h; simp at h
+
 end XrayModel.Seq
